@@ -104,7 +104,8 @@ def objective(cfg, I):
 
 
 class TooLong(Exception):
-    pass
+    """raised out of cross by the run cap; .partial holds what was observed up to then (same dict as run_impl returns)"""
+    partial = None
 
 
 def make_Y0(cfg):
@@ -208,7 +209,9 @@ def run_impl(tn, cfg, objective=None, Y0=None, max_calls=4000, max_requests=6000
                              m_cache_scale=cfg['scale'])
         out['Y'] = Y
         out['exc'] = None
-    except TooLong:
+    except TooLong as e:
+        out['Y'], out['exc'], out['ncall'] = None, e, ncall[0]
+        e.partial = out
         raise
     except Exception as e:  # noqa
         out['Y'] = None
